@@ -207,3 +207,37 @@ Theorem C10_gen_matches_handwritten :
                     | None => false
                     end) wire_layouts = true.
 Proof. vm_compute. reflexivity. Qed.
+
+(* onion failure packets: every valid failure value of a code whose payload
+   layout is in the table encodes to exactly 260 bytes (2 + 256 + 2: length,
+   message padded to 256, pad length) that DecodeFailure maps back to it *)
+Theorem C10_failure_roundtrip : forall on_curve F code L vs p,
+  lookup_layout F code = Some L -> lay_ok L = true -> code < 65536 ->
+  valid_vs on_curve L vs = true -> encode_failure F code vs = Some p ->
+  decode_failure on_curve F p = Some (code, vs) /\ blen p = 260.
+Proof. exact failure_roundtrip. Qed.
+
+(* T1: the generated failure-code table satisfies the side conditions *)
+Theorem C10_gen_failures_ok :
+  forallb (fun e => lay_ok (snd e) && (fst e <? 65536)) gen_failures = true.
+Proof. vm_compute. reflexivity. Qed.
+
+(* The DESIGN clause "canonicalisation never grows a message" does NOT extend to
+   the TLV-carrying messages: OpenChannel/AcceptChannel.Encode always produce the
+   upfront_shutdown_script record (type 0), so an accepted OpenChannel without
+   extension data re-encodes two bytes longer (`00 00` appended).  Witness: the
+   319-byte all-zero body under an oracle accepting every point. *)
+Theorem C10_tlvmsg_always_record_grows : exists b v e,
+  wf_bytes b /\ decode_tm (fun _ => true) msg_OpenChannel b = Some v /\
+  encode_tm msg_OpenChannel v = Some e /\ length e = (length b + 2)%nat.
+Proof.
+  exists (repeat 0 319).
+  destruct (decode_tm (fun _ => true) msg_OpenChannel (repeat 0 319)) as [v|] eqn:Ev;
+    [|vm_compute in Ev; discriminate].
+  exists v. destruct (encode_tm msg_OpenChannel v) as [e|] eqn:Ee.
+  - exists e. split; [apply wf_bytesb_spec; vm_compute; reflexivity|].
+    split; [reflexivity|]. split; [reflexivity|].
+    vm_compute in Ev. inversion Ev; subst v. vm_compute in Ee. inversion Ee; subst e.
+    vm_compute. reflexivity.
+  - vm_compute in Ev. inversion Ev; subst v. vm_compute in Ee. discriminate.
+Qed.
